@@ -466,7 +466,9 @@ func slicesEqual(x, y any) (err error) {
 		// Get primitives out of the way
 		var tried bool
 		if tried, err = primitivesEqual(xv, yv); tried {
-			return
+			// a primitive pair was compared; carry on
+			// with the next element unless it differed
+			continue
 		}
 
 		err = valuesEqual(xv, yv)
